@@ -1,15 +1,17 @@
 // c17: block execution is deterministic — the property's own oracle.
 //
 // parent:  re-executes itself as k independent OS processes (quick 3, thorough 8) with different
-//          GOMAXPROCS / GOGC settings and staggered wall-clock starts (Go's map iteration order and
-//          hash seeds differ per process and per range statement anyway).  Every child builds the real
-//          fx-core app with lib.NewChain(seed) and executes the SAME long mixed history (hist.go):
-//          crosschain claims / batches / confirms, erc20 conversions, staking and crosschain
-//          precompile calls through the real EVM, gov proposals with validator votes that are tallied
-//          in the end blocker, account migration, parameter updates, map-derived queries — real signed
-//          transactions through runTx and message-server calls, blocks through FinalizeBlock/Commit.
-//          App hash, op/tx results (code, gas, data digest) and event lists are compared block by
-//          block.  Monitor failure = two processes disagree; replay = seed + first diverging block + diff.
+//
+//	GOMAXPROCS / GOGC settings and staggered wall-clock starts (Go's map iteration order and
+//	hash seeds differ per process and per range statement anyway).  Every child builds the real
+//	fx-core app with lib.NewChain(seed) and executes the SAME long mixed history (hist.go):
+//	crosschain claims / batches / confirms, erc20 conversions, staking and crosschain
+//	precompile calls through the real EVM, gov proposals with validator votes that are tallied
+//	in the end blocker, account migration, parameter updates, map-derived queries — real signed
+//	transactions through runTx and message-server calls, blocks through FinalizeBlock/Commit.
+//	App hash, op/tx results (code, gas, data digest) and event lists are compared block by
+//	block.  Monitor failure = two processes disagree; replay = seed + first diverging block + diff.
+//
 // child:   VERIF_C17_CHILD=i: runs the history, writes trace_i.json.
 // Also writes Cases_C17.v: real BridgeValidators.PowerDiff / real GetAllBatchFees-style folds vs the
 // Coq models in model/M_Perm.v, and checks in-process that repeated evaluation gives identical bits.
@@ -32,22 +34,22 @@ import (
 )
 
 type trace struct {
-	Child  int        `json:"child"`
-	Seed   int64      `json:"seed"`
-	Blocks []BlockRes `json:"blocks"`
-	Stats  []string   `json:"stats"`
-	BfCases []string  `json:"bf_cases"`
-	Env    string     `json:"env"`
+	Child   int        `json:"child"`
+	Seed    int64      `json:"seed"`
+	Blocks  []BlockRes `json:"blocks"`
+	Stats   []string   `json:"stats"`
+	BfCases []string   `json:"bf_cases"`
+	Env     string     `json:"env"`
 }
 
 type replayT struct {
-	Seed         int64    `json:"seed"`
-	Blocks       int      `json:"blocks"`
-	Children     [2]int   `json:"children"`
+	Seed         int64     `json:"seed"`
+	Blocks       int       `json:"blocks"`
+	Children     [2]int    `json:"children"`
 	Envs         [2]string `json:"envs"`
-	FirstDiverge int64    `json:"first_diverging_block"`
-	Field        string   `json:"field"`
-	Diff         []string `json:"diff"`
+	FirstDiverge int64     `json:"first_diverging_block"`
+	Field        string    `json:"field"`
+	Diff         []string  `json:"diff"`
 }
 
 func child(idx int, seed int64, blocks int) {
@@ -361,4 +363,3 @@ func modelCases(rep *lib.Report, seed int64, thorough bool) {
 	}
 	lib.WriteCases("Cases_C17.v", []string{"model.M_Perm", "model.M_PermCorr"}, "pd_case", items, "pd_mismatch")
 }
-
